@@ -227,6 +227,8 @@ class Env:
         self.driver = None
         self.in_seen_eof = False
         self.never_ended = False
+        self.prereleased = set()
+        self.after_exit = False
 
     # ---- helpers (call with cv held) -------------------------------------
     def _worker(self, who):
@@ -348,6 +350,11 @@ class Env:
                     self.avail[kind].append((idx, bytes(ev[1])))
                     self.cv.notify_all()
                     ok = self._wait(lambda: idx in self.consumed or self._worker_gone(kind))
+                elif kind in ("in", "in_eof") and (idx in self.prereleased or self.after_exit):
+                    # part of the burst released with the exit event; later input is never read
+                    if idx not in self.prereleased:
+                        self.skipped.append(idx)
+                    continue
                 elif kind == "in":
                     if self._worker_gone("in"):
                         self.skipped.append(idx)
@@ -364,6 +371,19 @@ class Env:
                     ok = self._wait(lambda: self.stdin_closes > c0 or self._worker_gone("in")
                                     or self.in_seen_eof)
                 elif kind == "exit":
+                    # input that is already available when the command finishes: the
+                    # in/in_eof events directly after the exit event
+                    j = idx + 1
+                    while j < len(self.events) and self.events[j][0] in ("in", "in_eof"):
+                        e2 = self.events[j]
+                        if e2[0] == "in":
+                            unit = e2[1] if isinstance(e2[1], str) else bytes(e2[1])
+                            self.avail["in"].append((j, unit))
+                        else:
+                            self.in_eof = True
+                        self.prereleased.add(j)
+                        j += 1
+                    self.after_exit = True
                     if self.exited is None:
                         self.exited = ev[1]
                     self.cv.notify_all()
@@ -465,8 +485,11 @@ def make_runner_class():
 
         def _write_proc_stdin(self, data):
             e = self._verif_env
+            tgt = getattr(threading.current_thread(), "kwargs", {}).get("target")
+            who = {"handle_stdin": "in", "handle_stdout": "out", "handle_stderr": "err"}.get(
+                getattr(tgt, "__name__", None), "main")
             with e.cv:
-                e.stdin_writes.append(bytes(data))
+                e.stdin_writes.append((who, bytes(data)))
 
         def close_proc_stdin(self):
             e = self._verif_env
@@ -517,6 +540,16 @@ class RecordingWatcher:
         return []
 
 
+class AlwaysResponder:
+    """StreamWatcher answering every submission with the same text"""
+
+    def __init__(self, text):
+        self.text = text
+
+    def submit(self, stream):
+        return [self.text]
+
+
 HIDE = {"none": None, "false": False, "true": True, "out": "out", "stdout": "stdout",
         "err": "err", "stderr": "stderr", "both": "both"}
 
@@ -531,7 +564,7 @@ def run_scripted(case):
         return {"hang": True, "hang_what": "not run: %d earlier runs in this process hung" % Limits.hangs,
                 "not_run": True, "elapsed": 0.0, "kills": 0, "kills_after_exit": 0, "stop_calls": 0,
                 "program_finished": False, "workers": [], "alive_after": [], "timer": None,
-                "stdin_writes": [], "stdin_closes": 0, "out_stream": "", "err_stream": "",
+                "stdin_writes": {"in": [], "out": [], "err": [], "main": []}, "stdin_closes": 0, "out_stream": "", "err_stream": "",
                 "out_submits": [], "err_submits": [], "consumed": [], "exit_observed": False,
                 "started": False, "outcome": "HANG", "stdout": None, "stderr": None, "exited": None}
     env = Env(case.get("events", []), never_eof=case.get("never_eof", ()),
@@ -548,7 +581,7 @@ def run_scripted(case):
         pty=bool(case.get("pty")),
         warn=bool(case.get("warn")),
         encoding=case.get("enc", "utf-8"),
-        watchers=[watcher],
+        watchers=[watcher] + ([AlwaysResponder(case["respond"])] if case.get("respond") else []),
     )
     if case.get("async"):
         kwargs["asynchronous"] = True
@@ -617,7 +650,8 @@ def run_scripted(case):
         "timer": None if timer is None else
         {"started": timer.started, "cancelled": timer.cancelled, "fired": timer.fired,
          "armed_after": timer.is_alive()},
-        "stdin_writes": [list(b) for b in env.stdin_writes],
+        "stdin_writes": {w: [list(b) for ww, b in env.stdin_writes if ww == w]
+                         for w in ("in", "out", "err", "main")},
         "stdin_closes": env.stdin_closes,
         "out_stream": out_rec.text(),
         "err_stream": err_rec.text(),
